@@ -84,9 +84,11 @@ class Result:
         self.raising_sigs: set = set()
         self.sample_histories: list = []
         self.frontier_exhausted = False
+        self.stopped_after_violation = False
+        self.timed_out = False
 
 
-def bfs(seeds, plan, caps=None, sample_rng=None, on_level=None) -> Result:
+def bfs(seeds, plan, caps=None, sample_rng=None, on_level=None, is_known=None, big_frontier=20000, deadline=None) -> Result:
     """plan: list of group tuples, one per depth level (len(plan) == max depth)."""
     caps = caps or {}
     res = Result()
@@ -105,9 +107,19 @@ def bfs(seeds, plan, caps=None, sample_rng=None, on_level=None) -> Result:
     for depth, groups in enumerate(plan, start=1):
         tasks = [((s, list(ops)), groups, caps) for s, ops in frontier]
         tasks = common.shuffled(tasks, f"bfs{depth}")
-        results = common.pmap(_expand, tasks, chunksize=max(1, len(tasks) // (common.NPROC * 8)))
+        lvl_deadline = deadline
+        if deadline is not None and is_known is not None and any(not is_known(k) for k in list(res.c01) + list(res.c06)):
+            # an unrecorded violation is already in hand: deeper levels only add instances, give them two minutes
+            import time as _time
+
+            lvl_deadline = min(deadline, _time.time() + 120)
+        results, timed_out = common.pmap_until(_expand, tasks, lvl_deadline, chunksize=max(1, len(tasks) // (common.NPROC * 64)))
+        if timed_out:
+            res.timed_out = True
         nxt = []
         for (hist, _, _), recs in zip(tasks, results):
+            if recs is None:
+                continue
             for op, out, h, c01_key, c01, c06_key, c06 in recs:
                 res.transitions += 1
                 po = res.per_op.setdefault(op[0] if op[0] not in ("io", "init") else f"{op[0]}.{op[3] if op[0] == 'io' else op[2]}", [0, 0])
@@ -144,7 +156,15 @@ def bfs(seeds, plan, caps=None, sample_rng=None, on_level=None) -> Result:
         res.states = len(seen)
         if on_level:
             on_level(depth, res, len(frontier))
+        if res.timed_out:
+            break
         if not frontier:
             res.frontier_exhausted = True
+            break
+        # A defect in the ownership bookkeeping can make the hidden state differ for every history, so that
+        # de-duplication stops working and the frontier explodes.  Once a violation that is not a recorded finding
+        # has been seen there is nothing to gain from wading through such a frontier: report what was found.
+        if is_known is not None and len(frontier) > big_frontier and any(not is_known(k) for k in list(res.c01) + list(res.c06)):
+            res.stopped_after_violation = True
             break
     return res
